@@ -385,6 +385,7 @@ class Summary:
         self.outcomes = [dict() for _ in range(ntasks)]  # digest -> count
         self.fails = []
         self.interleaved = 0  # executions in which some task ran between two points of another
+        self.diverged = 0  # prefixes that did not replay (recorded as failures)
 
     def merge(self, o):
         self.schedules += o.schedules
@@ -400,6 +401,7 @@ class Summary:
                 a[k] = a.get(k, 0) + v
         self.fails.extend(o.fails)
         self.interleaved += o.interleaved
+        self.diverged += o.diverged
 
 
 def _record(scn, ref, summ, trace, results, dev, bound, oracle):
@@ -463,10 +465,26 @@ def explore_subtree(ref, bound, dev, pre, expect=None, digest=None, summ=None,
     while stack and (budget is None or done < budget):
         dev, pre, expect, digest = stack.pop()
         start = (max(dev) + 1) if dev else 0
-        trace, results = sch.execute(scn.jobs(), dev, expect, start)
         done += 1
-        if digest is not None and _digest_keys(trace, start) != digest:
-            raise Divergence(f"{scn.name}: prefix {sorted(dev.items())} diverged after crossing the process boundary")
+        try:
+            trace, results = sch.execute(scn.jobs(), dev, expect, start)
+            if digest is not None and _digest_keys(trace, start) != digest:
+                raise Divergence(f"prefix {sorted(dev.items())} diverged after crossing the process boundary")
+        except Divergence as e:
+            # Tasks are deterministic functions of their own input, so a
+            # recorded prefix can only fail to replay if what a task does
+            # depends on what ran earlier in the process - which is the very
+            # interference C13 is about (with a correct harness; the self check
+            # and the silent run on the pinned tree vouch for that).  Recorded
+            # as a failure; the subtree below this prefix is not explored.
+            summ.diverged += 1
+            if len(summ.fails) < 20:
+                summ.fails.append(("interference:schedule-does-not-replay",
+                                   {"scenario": list(ref), "bound": bound, "schedule": sorted(dev.items()),
+                                    "preemptions": pre, "task": None, "diverged": True},
+                                   f"{scn.name}: a choice prefix recorded in one execution did not replay in a later "
+                                   f"one (the number or kind of a task's scheduling points changed): {e}"))
+            continue
         _record(scn, ref, summ, trace, results, dev, bound, oracle)
         kids = _children(trace, start, pre, bound)
         for i, alt, cost in reversed(kids):
@@ -551,7 +569,7 @@ def confirm(fails, tables):
     cands = [[]] + [[(r2, tables[r2], t2)] for r2 in tables for t2 in range(len(tables[r2]))]
     seen, out = set(), []
     for sig, case, detail in fails:
-        if sig not in seen and "schedule" in case:
+        if sig not in seen and "schedule" in case and not case.get("diverged"):
             seen.add(sig)
             ref = (case["scenario"][0], case["scenario"][1], tuple(case["scenario"][2]))
             res = pristine.pristine_map(
@@ -576,6 +594,13 @@ def replay_twice(ref, dev=None):
     """Replay one recorded schedule twice; the decisions and the observations
     must be identical.  Without `dev`, a schedule with two preemptions in the
     middle of the root execution is used."""
+    try:
+        return _replay_twice(ref, dev)
+    except Divergence as e:
+        return False, {"schedule": sorted((dev or {}).items()), "diverged": str(e)}
+
+
+def _replay_twice(ref, dev=None):
     scn = get_scenario(ref)
     sch = scheduler()
     if dev is None:
